@@ -4,7 +4,7 @@
    | clause                                                      | stated by                                                   | status |
    | stored record is read back identically from the patched object | C16_roundtrip_annotations, C16_roundtrip_pending          | full for the annotation progress storage (every hash, prefix, v1/v2, verbosity, id, record, body, pending patch); status / multi / smart progress storages and the diff-base storages: D-tied on the same inputs + round-trip monitor (status round trip needs total records: RFC 7386 merges objects recursively) |
    | can be purged completely                                    | C16_purged_completely                                       | full for the annotation storage (fresh or any pending patch, all keys incl. v1 and -ofDRS); status: D-tied + monitor |
-   | never disturbs other handlers' records / other prefixes / user data | C16_isolation_annotations (store), C16_isolation_purge (purge, any pending patch) | full for the annotation storage; status: monitor |
+   | never disturbs other handlers' records / other prefixes / user data | C16_isolation_annotations (store), C16_isolation_purge (purge, any pending patch), C16_isolation_touch (touch) | full for the annotation storage; status: monitor |
    | names are valid Kubernetes names                            | C16_suffix_shape, C16_len, C16_charset, C16_valid_names_partial / _refuted (F2), C16_v1_len_partial / _refuted (F12) | partial: exactly the two recorded findings are excluded |
    | identical across restarts                                   | make_keys is a function of (prefix, v1, is-DRS, id) in the model; D:keys ties it to two fresh storage instances | by construction + monitor nondeterministic-name |
    | distinct for long ids that share a prefix                   | C16_long_distinct                                           | full, reduced to distinctness of the digests (blake2b is an oracle) | *)
@@ -146,3 +146,27 @@ Theorem C16_isolation_annotations : forall dg prefix v1 verbose tk key record bo
   /\ (forall f, f <> "metadata"%string -> lookup f (obj_of (merge body patch)) = lookup f (obj_of body)).
 Proof. exact ann_store_isolated. Qed.
 Print Assumptions C16_isolation_annotations.
+
+(* Isolation of the touch (the dummy write that re-triggers a cycle): it goes to the storage's touch key(s) and the marker
+   only; every other annotation - handlers' records, user data - and every top-level field other than metadata read as
+   before from the object as patched by an RFC 7386 server. *)
+Theorem C16_isolation_touch : forall dg prefix v1 verbose tk body v patch k',
+  ptouch dg (PAnn prefix v1 verbose tk) body (JObj []) v = Ok patch ->
+  ~ In k' (full_keys dg prefix v1 body tk) -> k' <> (prefix ++ "/" ++ marker_name)%string ->
+  resolve (merge body patch) (ann_path k')
+  = match resolve body ["metadata"; "annotations"]%string with Some (JObj a) => lookup k' a | _ => None end
+  /\ (forall f, f <> "metadata"%string -> lookup f (obj_of (merge body patch)) = lookup f (obj_of body)).
+Proof. exact ann_touch_isolated. Qed.
+Print Assumptions C16_isolation_touch.
+
+(* a touch that does write (value differs, unknown prefix so the marker goes along) meets the premises *)
+Example C16_isolation_touch_nonvacuous :
+  let body := JObj [("metadata", JObj [("annotations", JObj [("my.op/h1", JEnc (JObj [("retries", JNum 1)])); ("user", JStr "x")])]);
+                    ("spec", JObj [])]%string in
+  ptouch const_dg (PAnn "my.op" false false "touch-dummy") body (JObj []) (JStr "2020")
+  = Ok (pending [("my.op/touch-dummy", JStr "2020"); ("my.op/kopf-managed", JStr "yes")]%string)
+  /\ ~ In "my.op/h1"%string (full_keys const_dg "my.op" false body "touch-dummy")
+  /\ "my.op/h1"%string <> ("my.op" ++ "/" ++ marker_name)%string.
+Proof.
+  cbv zeta. split; [vm_compute; reflexivity|]. split; [vm_compute; intros [E|[]]; discriminate|vm_compute; discriminate].
+Qed.
